@@ -1,9 +1,3 @@
-"""C06 (stub while under construction): lemma installation shared with C08."""
+"""C06 (under construction): lemma installation shared with C08."""
 
-from __future__ import annotations
-
-from typing import Dict
-
-
-def install_lemmas(w, prog, roles, lemmas: Dict[str, str]) -> None:
-    return
+from .lemmas import install_lemmas  # noqa: F401
